@@ -9,7 +9,7 @@ import re
 from ..cfg import CFG
 from ..consteval import Evaluator
 from ..fsm_model import ActionModel, PDU_CLASSES
-from ..loader import AnalysisError, Repo, body_nodoc, dotted, enclosing, norm, walk_no_nested
+from ..loader import AnalysisError, Repo, body_nodoc, dotted, enclosing, norm, walk_no_nested, qualname
 from ..report import Report, VERIF
 
 LEVEL = "proof"
@@ -241,6 +241,7 @@ def run(repo: Repo, rep: Report, tier: str) -> None:
     check_timer_run_state(repo, rep, "artim-run-state")
     check_connect_failure(repo, rep, "connect-failure")
     check_send_failure(repo, rep, "send-failure")
+    check_transport_event_sources(repo, rep, "event-sources")
     from ..delegate import delegate
     rep.rule("closed-not-invalid", "a connection that closes in the middle of a PDU is Evt17 (transport closed), not Evt19 (invalid PDU) - C02's no-extra-rejection and C03's short-is-closed")
     delegate(repo, rep, tier, "C02", ("no-extra-rejection",), "closed-not-invalid", "a PDU cut short by the peer closing the connection is classified as an invalid PDU: Sta6 + Evt19 -> AA-8 (A-ABORT PDU sent, ARTIM started, Sta13) instead of Sta6 + Evt17 -> AA-4 (A-P-ABORT indication, Sta1)")
@@ -636,3 +637,38 @@ def check_send_failure(repo: Repo, rep: Report, rule: str) -> None:
                 ok = events == ["Evt17"]
                 rep.check(ok, rule, fq, f"[{inst}] queued {events}", f"a failed write must queue exactly one Evt17 (PS3.8 Table 9-10: Evt17 -> AA-4 / AR-5 in every state with a connection); queued: {events} - the state machine otherwise stays in its state with a dead connection until a timer expires (an error path through close() returns early once _is_connected is False)", mod=tr, node=fn)
     rep.floor("send() outcomes evaluated", n, 3)
+
+
+def check_transport_event_sources(repo: Repo, rep: Report, rule: str) -> None:
+    """The events of Table 9-10 that come from the connection (Evt3 ... Evt6, Evt10 ... Evt13, Evt16, Evt17,
+    Evt19) have one producer: DULServiceProvider._read_pdu_data(), reached from _is_transport_event() in *every*
+    state - Sta13 included, whose row still prescribes AA-7 for an A-ASSOCIATE-RQ / invalid PDU, AA-2 for an
+    A-ABORT and AA-6 for the rest - and AssociationSocket.close() (Evt17). _is_transport_event() returns True
+    exactly when it has queued an event: every path to `return True` passes one of the two, and the raw socket is
+    read nowhere else in the provider (bytes drained without decoding are PDUs the state machine never sees)."""
+    from ..cfg import CFG
+
+    dul = repo.mod("dul")
+    fn = repo.func("dul", "DULServiceProvider._is_transport_event")
+    fq = "dul.DULServiceProvider._is_transport_event"
+    cfg = CFG(fn, body=body_nodoc(fn), local_exc_only=True)
+
+    def produces(nd):
+        if nd.ast is None or nd.kind not in ("stmt", "finally"):
+            return False
+        return any(isinstance(c, ast.Call) and norm(c.func) in ("self._read_pdu_data", "self.socket.close") for c in walk_no_nested(nd.ast))
+
+    rets = [nd for nd in cfg.nodes if nd.kind == "stmt" and isinstance(nd.ast, ast.Return) and isinstance(nd.ast.value, ast.Constant) and nd.ast.value.value is True]
+    rep.need(rets, f"{fq}: no `return True`")
+    for r in rets:
+        ok, path = cfg.must_pass(cfg.entry, produces, {r.id}, labels_excluded=("exc",))
+        where = " -> ".join(str(p_.line) for p_ in path[-6:] if p_.line)
+        rep.check(ok, rule, fq, r.ast, f"a path (lines {where}) reports a transport event without having queued one: neither _read_pdu_data() nor socket.close() is on it - what the peer sent is taken off the connection without reaching the state machine, so the (state, event) pair PS3.8 prescribes a reaction to never occurs (in Sta13: no AA-7 A-ABORT for an A-ASSOCIATE-RQ / invalid PDU, no AA-2 for an A-ABORT)", mod=dul, node=r.ast)
+    # the raw socket is read only by AssociationSocket.recv
+    n_raw = 0
+    for f_ in [x for x in ast.walk(dul.tree) if isinstance(x, ast.FunctionDef)]:
+        for c in walk_no_nested(f_):
+            if isinstance(c, ast.Call) and isinstance(c.func, ast.Attribute) and c.func.attr in ("recv", "recv_into", "recvfrom", "read") and norm(c.func.value) not in ("self.socket", "self.assoc.dul.socket"):
+                n_raw += 1
+                rep.fail(rule, f"dul.{qualname(c)}", enclosing(c, (ast.stmt,)) or c, f"`{norm(c)[:60]}` reads the connection outside AssociationSocket.recv(): the bytes never reach the PDU decoder, so no event is raised for them", mod=dul, node=c)
+    rep.ok(rule, f"{fq} :: {len(rets)} `return True` paths", "each passes _read_pdu_data() or socket.close()")
